@@ -76,7 +76,7 @@ def main() -> None:
                  "+ VIOLATION line = a rule instance fails that is not listed in known_findings.json, exit 2 + "
                  "ANALYSIS-ERROR = anchor vanished / idiom not recognised (fail-closed, not a violation). The thorough "
                  "tier adds the self-test corpus (breaking variants must be detected, benign twins must stay silent) and "
-                 "verdict invariance under six whole-repository behaviour-preserving rewrites (sa/invariance.py), all "
+                 "verdict invariance under thirteen whole-repository behaviour-preserving rewrites (sa/invariance.py), all "
                  "analysed as in-memory overlays - PrimAITE code is never executed by any check.",
     }
     with open(os.path.join(ROOT, "MANIFEST.json"), "w") as fh:
